@@ -23,6 +23,7 @@ func c13Config() *config.Config {
 }
 
 func c13Check(w *df.VerifFlowWorld) {
+	verifOneSchedule(true) // the analyzer's own worker goroutines: one schedule (their schedules are the subject of C06/C20)
 	verifTerminatesWithin("taint-analysis-terminates", 150000000)
 	res, err := Analyze(c13Config(), w.Prog, nil)
 	verifTerminated()
